@@ -309,9 +309,7 @@ def special_names(ctx, rid, core):
     special_cf = set()
     for a in m[0]["arms"]:
         if "Identifier" in [H.last(v) for v in H.pat_variants(a["pat"])]:
-            for x in H.walk(a):
-                if H.kind(x) == "Lit" and x["lk"] == "str":
-                    special_cf.add(x["v"])
+            special_cf |= set(H.str_lits(a, core))  # literals, or a named table of them
     for nm in sorted(special_ev | special_cf):
         ctx.inst(rid, "special-name=%s" % nm, nm in special_ev and nm in special_cf,
                  "resolved by the evaluator before the environment lookup: %s; skipped by collect_free_variables: %s (a name in one set only is either captured although it is never read, or reported unbound although it always resolves)" % (nm in special_ev, nm in special_cf), H.loc(hcf["body"]))
